@@ -175,11 +175,17 @@ def ensure():
                 raise
             shutil.rmtree(d, ignore_errors=True)
             os.rename(tmp, d)
-            # keep the cache small: drop all but the 3 newest entries
-            ents = [e for e in os.listdir(CACHE) if not e.startswith(".") and e != key]
+            # keep the cache small: drop old entries, but never one that a concurrently running check may still be
+            # reading (checks of different trees can run in parallel): only entries beyond the 8 newest AND older than 30 min
+            ents = [e for e in os.listdir(CACHE) if not e.startswith(".") and e != key and ".tmp" not in e]
             ents.sort(key=lambda e: os.path.getmtime(os.path.join(CACHE, e)), reverse=True)
-            for e in ents[2:]:
-                shutil.rmtree(os.path.join(CACHE, e), ignore_errors=True)
+            now = time.time()
+            for e in ents[7:]:
+                try:
+                    if now - os.path.getmtime(os.path.join(CACHE, e)) > 1800:
+                        shutil.rmtree(os.path.join(CACHE, e), ignore_errors=True)
+                except OSError:
+                    pass
     finally:
         fcntl.flock(lock, fcntl.LOCK_UN)
         lock.close()
@@ -199,16 +205,24 @@ class Facts:
                 + ",".join(self.meta["stale_generated"]),
             )
 
+    def _open(self, name):
+        try:
+            return open(os.path.join(self.dir, name))
+        except FileNotFoundError:
+            # the entry was evicted under us: extract again
+            self.dir = ensure()
+            return open(os.path.join(self.dir, name))
+
     def mir(self, which):
         if which not in self._mir:
-            d = json.load(open(os.path.join(self.dir, which + ".mir.json")))
+            d = json.load(self._open(which + ".mir.json"))
             d["by_name"] = {f["name"]: f for f in d["fns"]}
             self._mir[which] = d
         return self._mir[which]
 
     def gram(self, which):
         if which not in self._gram:
-            self._gram[which] = json.load(open(os.path.join(self.dir, which + ".gram.json")))
+            self._gram[which] = json.load(self._open(which + ".gram.json"))
         return self._gram[which]
 
     def gram_path(self, which):
